@@ -618,6 +618,8 @@ def _apply_bin(lib, op, a, b):
         return lib.concatenate([a, b[:0], a])
     if op == "where":
         return lib.where(lib.cond, a, b)
+    if op == "where_c":                   # the condition's dtype (any dtype is a legal truth value) takes no part in the promotion
+        return lib.where(a, b, b)
     return getattr(lib, op)(a, b)
 
 
@@ -841,7 +843,7 @@ def jobs(tier: str, seed: int):
     for op in BINOPS:
         for kind in KINDS:
             add("dtype_binary", op=op, kind=kind)
-    for op in ("concatenate_e1", "concatenate_e2"):
+    for op in ("concatenate_e1", "concatenate_e2", "where_c"):
         add("dtype_binary", op=op, kind="aa")
     for op in UNOPS:
         add("dtype_unary", op=op)
